@@ -398,6 +398,11 @@ fn run17(cap: usize, toks: &[&str], wk: &mut Wakers, out: &mut String, mut tok_e
                 handles.push(c);
                 out.push('-');
             }
+            b'w' => {
+                // format the newest handle and a live guard with {:?} (what a log line does): looking at a counter changes nothing
+                let _ = format!("{:?} {:?}", handles.last().unwrap(), guards.iter().flatten().next());
+                out.push('-');
+            }
             b'h' => {
                 // drop the newest cloned handle (the one the ops went through); the first handle always stays
                 if handles.len() > 1 {
